@@ -269,6 +269,11 @@ def check(case, ctx):
                 elif kind == 'reinsert':
                     gone_rules = [r for r, how in removed if not how.startswith('part:') and not any(r is x for x in before_rules)
                                   and r.type != r.MARGIN_RULE]
+                    # a rule that still sits in the list of a (removed) container is not offered on its own: where an object that two
+                    # lists hold belongs is outside the statement (listed as a report that was not kept, DESIGN 9.6)
+                    held = [c for x, how in removed if not how.startswith('part:') and hasattr(x, 'cssRules') and x.type in (x.MEDIA_RULE, x.PAGE_RULE)
+                            for c in x.cssRules]
+                    gone_rules = [r for r in gone_rules if not any(r is c for c in held)]
                     if not gone_rules:
                         continue
                     offered = gone_rules[o[1] % len(gone_rules)]
